@@ -494,6 +494,79 @@ type hist struct {
 	pool []*entry
 	tags map[string]bool
 	uses []int
+	// a violation seen inside a step on a value that is not a pool entry (a format map handed to the printer)
+	sideClass, sideFail string
+}
+
+// ---- printing with format maps ---------------------------------------------------------------------------------------
+//
+// `tostring` also prints through per-type format maps (px.NewFormatContext3: the map is merged with the default formats;
+// container formats with separators and nested `string_formats`).  The map is itself a value handed to an operation: it
+// must read afterwards as it read before.
+
+type fmtMap struct {
+	v    px.Value
+	text string
+}
+
+var fmtMaps []*fmtMap
+
+func fmtEntry(format string, more ...*types.HashEntry) px.Value {
+	return types.WrapHash(append([]*types.HashEntry{types.WrapHashEntry2("format", types.WrapString(format))}, more...))
+}
+
+func formatMaps() []*fmtMap {
+	if fmtMaps != nil {
+		return fmtMaps
+	}
+	th := func(es ...*types.HashEntry) px.Value { return types.WrapHash(es) }
+	te := func(t px.Type, f px.Value) *types.HashEntry { return types.WrapHashEntry(t, f) }
+	str := func(s string) px.Value { return types.WrapString(s) }
+	inner := th(te(types.DefaultIntegerType(), str("%#x")), te(types.DefaultStringType(), str("%p")),
+		te(types.DefaultArrayType(), fmtEntry("%(a", types.WrapHashEntry2("separator", str(" ;")))))
+	ms := []px.Value{
+		th(te(types.DefaultArrayType(), fmtEntry("%#a", types.WrapHashEntry2("separator", str(";")), types.WrapHashEntry2("string_formats", inner))),
+			te(types.DefaultHashType(), fmtEntry("%#h", types.WrapHashEntry2("separator2", str(" -> ")), types.WrapHashEntry2("string_formats", inner))),
+			te(types.DefaultIntegerType(), str("%d"))),
+		th(te(types.DefaultCollectionType(), str("%p")), te(types.DefaultAnyType(), str("%s"))),
+		th(te(types.DefaultArrayType(), fmtEntry("%<a", types.WrapHashEntry2("string_formats", th(te(types.DefaultHashType(), str("%[h")))))),
+			te(types.DefaultHashType(), fmtEntry("% h", types.WrapHashEntry2("separator", str(",")))),
+			te(types.DefaultStringType(), str("%10.3s")), te(types.DefaultUndefType(), str("%u"))),
+	}
+	for _, m := range ms {
+		fmtMaps = append(fmtMaps, &fmtMap{m, m.String()})
+	}
+	return fmtMaps
+}
+
+func (h *hist) printWithMaps(v px.Value) {
+	for i, fm := range formatMaps() {
+		_ = safely(func() {
+			if ctx, err := px.NewFormatContext3(v, fm.v); err == nil {
+				_ = px.ToString2(v, ctx)
+				h.tags["fmtmap"] = true
+			}
+		})
+		if now := fm.v.String(); now != fm.text && h.sideFail == "" {
+			h.sideClass = "format-map-mutated"
+			h.sideFail = fmt.Sprintf("printing with format map %d changed the map: was %s now %s", i, fm.text, now)
+		}
+	}
+}
+
+// the option sets `ser` runs the serializer with (besides the default rich-data one whose result is the step's value)
+var serOptions []px.OrderedMap
+
+func serializerOptions() []px.OrderedMap {
+	if serOptions == nil {
+		o := func(es ...*types.HashEntry) px.OrderedMap { return types.WrapHash(es) }
+		serOptions = []px.OrderedMap{
+			o(types.WrapHashEntry2(`rich_data`, types.BooleanTrue), types.WrapHashEntry2(`local_reference`, types.BooleanFalse)),
+			o(types.WrapHashEntry2(`rich_data`, types.BooleanTrue), types.WrapHashEntry2(`dedup_level`, types.WrapInteger(serialization.NoKeyDedup))),
+			o(types.WrapHashEntry2(`rich_data`, types.BooleanTrue), types.WrapHashEntry2(`dedup_level`, types.WrapInteger(serialization.NoDedup))),
+		}
+	}
+	return serOptions
 }
 
 func mk(v px.Value) *entry {
@@ -796,6 +869,7 @@ func (h *hist) step(c px.Context, st sx.Sexp) (res *entry, recv int, args []int)
 			_ = r.v.String()
 			_ = px.ToString2(r.v, progCtx)
 			_ = px.ToPrettyString(r.v)
+			h.printWithMaps(r.v)
 		}), recv, nil
 	case "tokey":
 		return call(func() { _ = px.ToKey(r.v) }), recv, nil
@@ -843,6 +917,11 @@ func (h *hist) step(c px.Context, st sx.Sexp) (res *entry, recv int, args []int)
 			}
 			var buf bytes.Buffer
 			serialization.NewSerializer(c, richData).Convert(r.v, serialization.NewJsonStreamer(&buf))
+			// the other de-duplication settings (memo table keyed by identity: off, values only, everything), each
+			// guarded on its own
+			for _, opt := range serializerOptions() {
+				_ = safely(func() { serialization.NewSerializer(c, opt).Convert(r.v, types.NewCollector()) })
+			}
 		}), recv, nil
 	case "deser":
 		plainData := r.kind != 'm' && plain(r.v, true)
@@ -1120,6 +1199,9 @@ func exec(c px.Context, op string, steps []sx.Sexp) core.Result {
 				failClass = who + "." + st.Tag()
 				fail = fmt.Sprintf("step %d %s changed value %d: was %s now %s", n, st.String(), i, p.snap, now)
 			}
+		}
+		if fail == "" && h.sideFail != "" {
+			failClass, fail = h.sideClass+"."+st.Tag(), fmt.Sprintf("step %d %s: %s", n, st.String(), h.sideFail)
 		}
 		if fail != "" {
 			// the property is already violated; operating on corrupted (possibly cyclic) values proves nothing more
